@@ -169,6 +169,10 @@ Visit ==
 
 Next == Visit
 Spec == Init /\ [][Next]_vars
+\* Totality (C05 at design level): under weak fairness of the loop the builder always finishes - every iteration takes one
+\* more candidate from a finite stream, or stops.
+LiveSpec == Spec /\ WF_vars(Next)
+Terminates == <>(pc = "done")
 
 ---------------------------------------------------------------------------
 (* invariants *)
